@@ -21,6 +21,14 @@ Theorem c13_monitor_accepts_model : forall g ops, init_wf g = true ->
 Proof. exact monitor_accepts_model_l. Qed.
 Print Assumptions c13_monitor_accepts_model.
 
+(* the same for the race cases (real goroutines, judged on the final peerstore
+   contents against the linearised operations): the final-state check accepts
+   the model's final state after every history *)
+Theorem c13_race_monitor_accepts_model : forall g ops, init_wf g = true ->
+  monitor_race g ops (dump_all (g_np g) (s_ps (run g (init_sys g) ops))) = [].
+Proof. intros g ops Hw. unfold monitor_race. now rewrite final_ok_model. Qed.
+Print Assumptions c13_race_monitor_accepts_model.
+
 (* every peerstore call consumeMessage produces is keyed by the remote peer of
    the connection the message arrived on — whatever the message holds, whatever
    the signature scheme, ID function and stored state are *)
@@ -139,7 +147,7 @@ Print Assumptions c13_fallback_to_finite_lifetime.
    over the wait bookkeeping): in every reachable state an open wait channel
    has a running identify task; a task's answer — any answer — closes its
    channel; the identify timeout closes them all *)
-Theorem c13_wait_eventually_released : forall g ops, init_wf g = true ->
+Theorem c13_wait_eventually_released_partial : forall g ops, init_wf g = true ->
   let s := run g (init_sys g) ops in
   (forall ch, In (ch, false) (s_chans s) -> In ch (map fst (s_tasks s))) /\
   (forall ch c out, alist_get ch (s_tasks s) = Some c ->
@@ -152,7 +160,7 @@ Proof.
   - intros d ch. destruct (gstep g s (OTimeout d)) as [s' mo] eqn:E. cbn [fst].
     exact (timeout_all_closed g s d s' mo E Hwt ch).
 Qed.
-Print Assumptions c13_wait_eventually_released.
+Print Assumptions c13_wait_eventually_released_partial.
 
 (* the constants re-read from /repo on every run: the TTL classes are ordered
    as the reasoning needs, the caps are positive and nested, and the TTL values
